@@ -19,7 +19,7 @@
  *   <status>[:v,v...][/hex/hex...]@<len>,<pos>,<taglen>,<remaining hex>
  * ("-" = empty byte string).  When the tag lies beyond the offset (the caller moved below an
  * active tag with set_position - outside the API contract) every op except t, tc, sp is
- * answered with SKIP instead of being executed.  A case is given 3 seconds (alarm).
+ * answered with SKIP instead of being executed.  A case is given 5 CPU seconds (ITIMER_PROF: robust against a loaded machine).
  */
 #include "ares_private.h"
 #include "drv_common.h"
@@ -56,6 +56,24 @@ static void view(const ares_buf_t *buf)
   put_hex(p, l);
 }
 
+#include <sys/time.h>
+#include <signal.h>
+#include <unistd.h>
+static void buf_watchdog_fire(int sig)
+{
+  (void)sig;
+  _exit(124);
+}
+/* CPU-time watchdog of one case (0 = off) */
+static void buf_watchdog(long seconds)
+{
+  struct itimerval it;
+  memset(&it, 0, sizeof(it));
+  it.it_value.tv_sec = seconds;
+  signal(SIGPROF, buf_watchdog_fire);
+  setitimer(ITIMER_PROF, &it, NULL);
+}
+
 static void run_buf(long k, char *ops)
 {
   ares_buf_t    *buf   = ares_buf_create();
@@ -63,7 +81,7 @@ static void run_buf(long k, char *ops)
   char          *save  = NULL, *op;
   /* a library loop that no longer terminates must not stall the whole check: SIGALRM ends the
    * process, the runner records the case as a crash and resumes with the next one */
-  alarm(3);
+  buf_watchdog(5);
   printf("%ld R", k);
   for (op = strtok_r(ops, ";", &save); op; op = strtok_r(NULL, ";", &save)) {
     int           fail = 0;
@@ -332,7 +350,7 @@ static void run_buf(long k, char *ops)
   printf("\n");
   ares_buf_destroy(buf);
   free(cdata);
-  alarm(0);
+  buf_watchdog(0);
 }
 
 DSA_REGISTER("buf", run_buf)
